@@ -1769,3 +1769,56 @@ Proof.
   simpl. destruct (get N.eqb (d_dig d) (o_blobs (fst (run oci_step oci_init h)))) as [c|] eqn:E; [|discriminate].
   intro X. injection X as <- _. apply (H _ _ E).
 Qed.
+
+(* ---------- tie to the source: the order of effects the models mirror ----------
+   Generated/GC06.v lists, per modelled Go function, the calls of its body in source order
+   (translator kind c06_callseq).  The hand-written step functions perform the same effects
+   in the same order; these checks fail (layer P) when a step is re-ordered, removed or
+   replaced in the Go source. *)
+Fixpoint pos_of (x : string) (l : list string) : option nat :=
+  match l with
+  | [] => None
+  | y :: l' => if String.eqb x y then Some O else option_map S (pos_of x l')
+  end.
+Definition before (a c : string) (l : list string) : bool :=
+  match pos_of a l, pos_of c l with Some i, Some j => Nat.ltb i j | _, _ => false end.
+Definition has (a : string) (l : list string) : bool := match pos_of a l with Some _ => true | None => false end.
+Definition times (a : string) (l : list string) : nat := length (filter (String.eqb a) l).
+
+Definition call_order_checks : list bool :=
+  [ (* memory store *)
+    before "s.storage.Push" "s.graph.Index" mem_Push_calls;
+    before "s.storage.Exists" "s.resolver.Tag" mem_Tag_calls;
+    before "m.content.Load" "contentpkg.ReadAll" cas_Push_calls;
+    before "contentpkg.ReadAll" "m.content.LoadOrStore" cas_Push_calls;
+    negb (has "m.content.Store" cas_Push_calls);
+    (* OCI store *)
+    before "s.sync.RLock" "s.storage.Push" oci_Push_calls;
+    before "s.storage.Push" "s.graph.Index" oci_Push_calls;
+    before "s.graph.Index" "s.tag" oci_Push_calls;
+    before "validateReference" "digest.Digest" oci_Tag_calls;
+    before "digest.Digest" "s.storage.Exists" oci_Tag_calls;
+    before "s.storage.Exists" "s.graph.Index" oci_Tag_calls;
+    before "s.graph.Index" "s.tag" oci_Tag_calls;
+    Nat.eqb (times "s.tagResolver.Tag" oci_tag_calls) 2;
+    before "s.tagResolver.Map" "s.tagResolver.Untag" oci_delete_calls;
+    before "s.tagResolver.Untag" "s.graph.Remove" oci_delete_calls;
+    before "s.graph.Remove" "s.storage.Delete" oci_delete_calls;
+    before "s.tagResolver.Resolve" "s.tagResolver.Untag" oci_Untag_calls;
+    (* file store *)
+    before "s.push" "s.graph.Index" file_Push_calls;
+    before "s.graph.Index" "s.restoreDuplicates" file_Push_calls;
+    has "s.restoreDuplicatesOfSkipped" file_Push_calls;
+    before "status.Lock" "s.resolveWritePath" file_push_calls;
+    before "s.resolveWritePath" "s.pushFile" file_push_calls;
+    has "s.fallbackStorage.Push" file_push_calls;
+    before "os.Create" "s.saveFile" file_pushFile_calls;
+    before "s.saveFile" "os.Remove" file_pushFile_calls;
+    before "s.Exists" "s.resolver.Tag" file_Tag_calls;
+    has "io.LimitReader" limited_Push_calls;
+    (* resolver *)
+    has "oldTagSet.Delete" resolver_Tag_calls;
+    before "m.lock.Lock" "tagSet.Add" resolver_Tag_calls ].
+
+Lemma call_order_from_source : forallb (fun x => x) call_order_checks = true.
+Proof. vm_compute. reflexivity. Qed.
